@@ -1,300 +1,41 @@
-"""C02 — abelian contraction equals dense contraction (partial: operand-role consistency).
+"""C02 — abelian contraction equals dense contraction (block level).
 
-R02.1  role typing: A-things index A-things, B-things index B-things; result = A-left + B-right
-R02.2  mode switch exhaustive
-R02.3  axes normalisation of tensordot_abelian and tensordot_fermionic agree
-R02.4  scalar-result protocol agrees across its sites
-R02.5  literal axes tables are consistent
+K1, K2  block-level semantics of tensordot in every mode by abstract evaluation (rules/sem_contract.py)
+K4      entry points: axes forms, matmul, trace, einsum, scalar results, refusals
 """
 
 from __future__ import annotations
 
-import ast
-import itertools
-
-from engine.loader import AnalysisError, src, walk_own
-
 PID = "C02"
 EXPLANATION = (
-    "Role typing of the contraction code: every value in _tensordot_blockwise, drop_misaligned_sectors, _tensordot_via_fused, "
-    "tensordot_abelian, tensordot_fermionic gets the role of the operand it belongs to (A: a, a.ndim, sectors iterated from "
-    "a.blocks, axes_a, left_axes; B likewise) by provenance, and in every expression of the forms `S[i] for i in AX`, `x % n for x "
-    "in AX`, `without(X, AX)`, `X.indices`, block lookups and the backend tensordot call, container and index source must have the "
-    "same role; the result sector is A-left followed by B-right and the result indices are built in the same order. The mode "
-    "switch is exhaustive; the axes normalisation of the abelian and fermionic entry points are alpha-equivalent; the "
-    "scalar-result protocol (0-d and not preserve_array -> blocks[()], KeyError -> 0.0) agrees at all its sites; the literal "
-    "(ndim_a, ndim_b) and scalar/vector/matrix tables partition each operand's axes into free and contracted, contract the last "
-    "axis of the left with the first of the right, and cover all key combinations. A role mix-up pairs the wrong blocks for "
-    "every operand pair whose A and B axes differ. The numbers themselves are not decided."
+    "Abstract evaluation of the contraction entry points. The checker's evaluator interprets tensordot_abelian (modes blockwise, "
+    "fused, auto), __matmul__, trace and the single-operand einsum, with everything they call, from the current source on a bounded "
+    "family of operand pairs whose block contents are shaped tokens (symmetries Z2, U1, plus Z2Z2, U1U1, Z4 in the thorough tier; "
+    "ranks 1-4; several direction patterns; identity and non-identity charges; 0-3 contracted axes in given and reversed order, as a "
+    "pair of tuples, as an integer and with negative numbers; 0-2 extra free axes; operands whose present sectors differ, including "
+    "pairs with no aligned sector). A normalising token algebra reduces every result block of every mode to a set of pair products "
+    "tensordot(a_block, b_block, paired axes); the set must be exactly the one the DEFINITION of a block-sparse contraction gives "
+    "(computed by the checker from the operands' sectors: a-blocks and b-blocks with equal charges on the contracted axes, filed "
+    "under a's free charges followed by b's), the result charge must be combine(a.charge, b.charge), the result indices the "
+    "operands' free indices, and the result must pass the validity audit. Scalar results must be the sum itself, or 0.0 when "
+    "nothing aligns; unknown modes and unequal axes must be refused. With the backend's tensordot correct on each pair of blocks "
+    "(assumed), equality of the pair-product sets is equality with the dense contraction restricted to the result's sectors. "
+    "Numerical values, dtypes and to_dense itself are not examined; the verdict covers exactly the enumerated cases."
 )
-ASSUMPTIONS = ["operands a and b have matching contracted indices"]
-
-AC = "symmray.abelian_core"
-
-
-def roles_of(f):
-    """name -> 'A' | 'B' by provenance within f"""
-    roles = {}
-    params = f.all_params()
-    base = {"a": "A", "b": "B", "axes_a": "A", "axes_b": "B", "left_axes": "A", "right_axes": "B", "self": "A", "other": "B"}
-    for p in params:
-        if p in base:
-            roles[p] = base[p]
-    changed = True
-    n = 0
-    while changed and n < 6:
-        changed = False
-        n += 1
-        for node in ast.walk(f.node):
-            tgt_val = []
-            if isinstance(node, ast.Assign) and len(node.targets) == 1:
-                tgt_val.append((node.targets[0], node.value))
-            elif isinstance(node, ast.For):
-                tgt_val.append((node.target, node.iter))
-            elif isinstance(node, ast.comprehension):
-                tgt_val.append((node.target, node.iter))
-            for t, v in tgt_val:
-                r = role_of_expr(v, roles)
-                if r is None:
-                    continue
-                names = [t.id] if isinstance(t, ast.Name) else [e.id for e in ast.walk(t) if isinstance(e, ast.Name)]
-                for nm in names:
-                    if nm in ("i", "c", "ax", "x"):
-                        continue
-                    if roles.get(nm) is None:
-                        roles[nm] = r
-                        changed = True
-                    elif roles[nm] != r and roles[nm] != "AB":
-                        roles[nm] = "AB"
-    return roles
-
-
-def role_of_expr(e, roles):
-    rs = {roles[n.id] for n in ast.walk(e) if isinstance(n, ast.Name) and n.id in roles and roles[n.id] in ("A", "B")}
-    if len(rs) == 1:
-        return rs.pop()
-    return None
-
-
-def check_roles(prog, ctx):
-    rid = "R02.1"
-    n = 0
-    for fq in (f"{AC}:_tensordot_blockwise", f"{AC}:drop_misaligned_sectors", f"{AC}:_tensordot_via_fused",
-               f"{AC}:tensordot_abelian", "symmray.fermionic_core:tensordot_fermionic"):
-        f = prog.func(fq)
-        roles = roles_of(f)
-        parent = {}
-        for n_ in ast.walk(f.node):
-            for c_ in ast.iter_child_nodes(n_):
-                parent[id(c_)] = n_
-
-        def scoped_role(name_node):
-            """role of a name bound by the nearest enclosing comprehension / for loop, else the function-level role"""
-            cur = name_node
-            while id(cur) in parent:
-                cur = parent[id(cur)]
-                gens = []
-                if isinstance(cur, (ast.GeneratorExp, ast.ListComp, ast.SetComp, ast.DictComp)):
-                    gens = [(g_.target, g_.iter) for g_ in cur.generators]
-                elif isinstance(cur, ast.For):
-                    gens = [(cur.target, cur.iter)]
-                for (t_, it_) in gens:
-                    if any(isinstance(x_, ast.Name) and x_.id == name_node.id for x_ in ast.walk(t_)):
-                        r_ = role_of_expr(it_, roles)
-                        if r_ is not None:
-                            return r_
-            return roles.get(name_node.id)
-
-        for node in ast.walk(f.node):
-            # S[i] for i in AX   /  x % N for x in AX
-            if isinstance(node, (ast.GeneratorExp, ast.ListComp)) and len(node.generators) == 1:
-                g = node.generators[0]
-                src_role = role_of_expr(g.iter, roles)
-                elt = node.elt
-                if isinstance(elt, ast.Subscript) and isinstance(elt.value, ast.Name) and isinstance(g.target, ast.Name) \
-                        and src(elt.slice) == g.target.id:
-                    cont_role = scoped_role(elt.value)
-                    if src_role in ("A", "B") and cont_role in ("A", "B"):
-                        n += 1
-                        ctx.check(src_role == cont_role, rid, f, node, src(node),
-                                  f"`{src(node)}`: a {cont_role}-operand container is indexed by {src_role}-operand axes")
-                if isinstance(elt, ast.BinOp) and isinstance(elt.op, ast.Mod):
-                    mod_role = role_of_expr(elt.right, roles)
-                    if src_role in ("A", "B") and mod_role in ("A", "B"):
-                        n += 1
-                        ctx.check(src_role == mod_role, rid, f, node, src(node),
-                                  f"`{src(node)}`: {src_role}-operand axes are normalised modulo a {mod_role}-operand rank")
-            # without(X, AX)
-            if isinstance(node, ast.Call) and src(node.func) == "without" and len(node.args) == 2:
-                r1, r2 = role_of_expr(node.args[0], roles), role_of_expr(node.args[1], roles)
-                if r1 in ("A", "B") and r2 in ("A", "B"):
-                    n += 1
-                    ctx.check(r1 == r2, rid, f, node, src(node), f"`{src(node)}`: {r1}-operand items are filtered by {r2}-operand axes")
-            # backend contraction of a pair of blocks
-            if isinstance(node, ast.Call) and src(node.func) == "_tensordot" and len(node.args) == 2:
-                kw = {k.arg: k.value for k in node.keywords}
-                ax = kw.get("axes")
-                if isinstance(ax, ast.Tuple) and len(ax.elts) == 2:
-                    n += 1
-                    ctx.check(src(ax.elts[0]) == "axes_a" and src(ax.elts[1]) == "axes_b", rid, f, node, src(node),
-                              "the backend contraction pairs a's block with axes_a and b's block with axes_b")
-        # range(ndim_X) with axes_X
-    f = prog.func(f"{AC}:_tensordot_blockwise")
-    ns = [a for a in ast.walk(f.node) if isinstance(a, ast.Assign) and src(a.targets[0]) == "new_sector"]
-    ctx.check(len(ns) == 1 and src(ns[0].value) == "sector_left + sector_right", rid, f, f.node, "result sector",
-              "the result sector is a's free charges followed by b's free charges")
-    ni = [a for a in walk_own(f.node) if isinstance(a, ast.Assign) and src(a.targets[0]) == "new_indices"]
-    ctx.check(len(ni) == 1 and src(ni[0].value).replace(" ", "") == "list(without(a.indices,axes_a)+without(b.indices,axes_b))", rid, f, f.node,
-              "result indices", "the result indices are a's free indices followed by b's free indices (same order as the sectors)")
-    # grouping key agreement: b grouped by its contracted sub-sector, looked up with a's contracted sub-sector
-    grp = [c for c in ast.walk(f.node) if isinstance(c, ast.Call) and src(c.func) == "aligned_blocks[sector_contracted].append"]
-    look = [n_ for n_ in ast.walk(f.node) if isinstance(n_, ast.For) and src(n_.iter) == "aligned_blocks[sector_contracted]"]
-    ctx.check(len(grp) == 1 and len(look) == 1, rid, f, f.node, "alignment key", "blocks of b are grouped, and blocks of a looked up, by the contracted sub-sector")
-
-    def axes_of(loop, var):
-        d = [a for a in loop.body if isinstance(a, ast.Assign) and src(a.targets[0]) == var]
-        if len(d) == 1 and isinstance(d[0].value, ast.Call) and d[0].value.args and isinstance(d[0].value.args[0], ast.GeneratorExp):
-            return src(d[0].value.args[0].generators[0].iter)
-        return None
-
-    bl = [n_ for n_ in walk_own(f.node) if isinstance(n_, ast.For) and src(n_.iter) == "b.blocks.items()"]
-    al = [n_ for n_ in walk_own(f.node) if isinstance(n_, ast.For) and src(n_.iter) == "a.blocks.items()"]
-    if len(bl) == 1 and len(al) == 1 and len(grp) == 1:
-        ap = grp[0].args[0]
-        rest = src(ap.elts[0]) if isinstance(ap, ast.Tuple) else None
-        ctx.check(axes_of(bl[0], "sector_contracted") == "axes_b" and axes_of(bl[0], rest) == "right_axes", rid, f, bl[0], "b grouping",
-                  "b's blocks are keyed by their CONTRACTED charges (axes_b) and carry their FREE charges (right_axes)")
-        ctx.check(axes_of(al[0], "sector_contracted") == "axes_a" and axes_of(al[0], "sector_left") == "left_axes", rid, f, al[0], "a lookup",
-                  "a's blocks are looked up by their CONTRACTED charges (axes_a) and contribute their FREE charges (left_axes)")
-    else:
-        ctx.check(False, rid, f, f.node, "loops", "one grouping loop over b's blocks and one lookup loop over a's blocks")
-    ta = prog.func(f"{AC}:tensordot_abelian")
-    la = [a for a in walk_own(ta.node) if isinstance(a, ast.Assign) and src(a.targets[0]) in ("left_axes", "right_axes")]
-    ok = {src(a.targets[0]): src(a.value) for a in la} == {"left_axes": "without(range(ndim_a), axes_a)", "right_axes": "without(range(ndim_b), axes_b)"}
-    ctx.check(ok, rid, ta, ta.node, "free axes", "free axes are the complement of the contracted axes within the same operand's rank")
-    call = [c for c in walk_own(ta.node) if isinstance(c, ast.Call) and src(c.func) == "_tdot"]
-    ctx.check(len(call) == 1 and [src(a) for a in call[0].args] == ["a", "b", "left_axes", "axes_a", "axes_b", "right_axes"], rid, ta, ta.node,
-              "strategy call", "strategies are called as (a, b, left_axes, axes_a, axes_b, right_axes)")
-    for fq in (f"{AC}:_tensordot_blockwise", f"{AC}:_tensordot_via_fused"):
-        g = prog.func(fq)
-        ctx.check(g.params() == ["a", "b", "left_axes", "axes_a", "axes_b", "right_axes"], rid, g, g.node, str(g.params()),
-                  f"{g.name} takes (a, b, left_axes, axes_a, axes_b, right_axes)")
-    ctx.minimum(rid, 20, "role-typed expressions across five functions")
-
-
-def check_modes(prog, ctx):
-    rid = "R02.2"
-    f = prog.func(f"{AC}:tensordot_abelian")
-    none = [n for n in walk_own(f.node) if isinstance(n, ast.If) and src(n.test) == "mode is None"]
-    ctx.check(len(none) == 1 and src(none[0].body[0]) == "mode = _DEFAULT_TENSORDOT_MODE", rid, f, f.node, "None", "mode=None reads the process default")
-    auto = [n for n in walk_own(f.node) if isinstance(n, ast.If) and src(n.test) == "mode == 'auto'"]
-    ok = len(auto) == 1 and isinstance(auto[0].body[0], ast.If) and src(auto[0].body[0].test) == "len(axes_a) == 0" \
-        and src(auto[0].body[0].body[0]) == "mode = 'blockwise'" and src(auto[0].body[0].orelse[0]) == "mode = 'fused'"
-    ctx.check(ok, rid, f, f.node, "auto", "auto picks blockwise for outer products and fused otherwise")
-    sw = [n for n in walk_own(f.node) if isinstance(n, ast.If) and src(n.test) == "mode == 'fused'"]
-    ok = len(sw) == 1 and src(sw[0].body[0]) == "_tdot = _tensordot_via_fused" and isinstance(sw[0].orelse[0], ast.If) \
-        and src(sw[0].orelse[0].test) == "mode == 'blockwise'" and src(sw[0].orelse[0].body[0]) == "_tdot = _tensordot_blockwise" \
-        and isinstance(sw[0].orelse[0].orelse[0], ast.Raise)
-    ctx.check(ok, rid, f, f.node, "switch", "fused / blockwise / anything else raises")
-    order = none and auto and sw and none[0].lineno < auto[0].lineno < sw[0].lineno
-    ctx.check(bool(order), rid, f, f.node, "order", "default resolution precedes auto resolution precedes dispatch")
-    ctx.minimum(rid, 4, "mode switch")
-
-
-def _norm_block(f):
-    """the `if isinstance(axes, int): ... else: ...` block, alpha-normalised"""
-    for n in walk_own(f.node):
-        if isinstance(n, ast.If) and src(n.test) == "isinstance(axes, int)":
-            return ast.dump(n)
-    return None
-
-
-def check_axes_normalisation(prog, ctx):
-    rid = "R02.3"
-    fa = prog.func(f"{AC}:tensordot_abelian")
-    ff = prog.func("symmray.fermionic_core:tensordot_fermionic")
-    da, df = _norm_block(fa), _norm_block(ff)
-    ctx.need(da is not None and df is not None, "axes normalisation block not found")
-    ctx.check(da == df, rid, ff, ff.node, "axes normalisation", "tensordot_abelian and tensordot_fermionic parse `axes` identically")
-    blk = [n for n in walk_own(fa.node) if isinstance(n, ast.If) and src(n.test) == "isinstance(axes, int)"][0]
-    body = {src(a.targets[0]): src(a.value) for a in blk.body if isinstance(a, ast.Assign)}
-    ctx.check(body == {"axes_a": "tuple(range(ndim_a - axes, ndim_a))", "axes_b": "tuple(range(0, axes))"}, rid, fa, blk, str(body),
-              "an integer contracts a's last n with b's first n axes")
-    els = {src(a.targets[0]): src(a.value) for a in blk.orelse if isinstance(a, ast.Assign)}
-    ok = els.get("axes_a") == "tuple((x % ndim_a for x in axes_a))" and els.get("axes_b") == "tuple((x % ndim_b for x in axes_b))"
-    ctx.check(ok, rid, fa, blk, str(els), "explicit (possibly negative) axes are normalised modulo their own operand's rank")
-    g = [n for n in blk.orelse if isinstance(n, ast.If) and "len(axes_a) == len(axes_b)" in src(n.test) and isinstance(n.body[0], ast.Raise)]
-    ctx.check(len(g) == 1, rid, fa, blk, "length guard", "different numbers of axes raise")
-    for f in (fa, ff):
-        nd = {src(a.targets[0]): src(a.value) for a in walk_own(f.node) if isinstance(a, ast.Assign) and src(a.targets[0]) in ("ndim_a", "ndim_b")}
-        ctx.check(nd == {"ndim_a": "a.ndim", "ndim_b": "b.ndim"}, rid, f, f.node, str(nd), f"{f.name}: ranks are read from the right operands")
-    ctx.minimum(rid, 6, "normalisation")
-
-
-def check_scalar_protocol(prog, ctx):
-    rid = "R02.4"
-    sites = [(f"{AC}:tensordot_abelian", "c"), ("symmray.fermionic_core:tensordot_fermionic", "c"),
-             (f"{AC}:AbelianArray.__matmul__", "c"), ("symmray.fermionic_core:FermionicArray.__matmul__", "c")]
-    for fq, var in sites:
-        f = prog.func(fq)
-        ifs = [n for n in walk_own(f.node) if isinstance(n, ast.If) and f"{var}.ndim == 0" in src(n.test)]
-        ctx.need(len(ifs) == 1, f"{f.qualname}: scalar-result branch not found")
-        t = src(ifs[0].test).replace("(", "").replace(")", "")
-        has_flag = "preserve_array" in f.all_params()
-        ctx.check(t == (f"{var}.ndim == 0 and not preserve_array" if has_flag else f"{var}.ndim == 0"), rid, f, ifs[0], t,
-                  f"{f.qualname}: a 0-d result is unwrapped" + (" unless preserve_array" if has_flag else ""))
-        tr = [s for s in ifs[0].body if isinstance(s, ast.Try)]
-        ok = len(tr) == 1 and any(isinstance(s, ast.Return) and src(s.value) == f"{var}.blocks[()]" for s in tr[0].body) \
-            and len(tr[0].handlers) == 1 and src(tr[0].handlers[0].type) == "KeyError" and src(tr[0].handlers[0].body[-1]) == "return 0.0"
-        ctx.check(ok, rid, f, ifs[0], "protocol", f"{f.qualname}: returns blocks[()], or 0.0 when no blocks aligned")
-    f = prog.func(f"{AC}:AbelianArray.einsum")
-    tr = [s for s in walk_own(f.node) if isinstance(s, ast.Try) and any(isinstance(x, ast.Return) and src(x.value) == "new_blocks[()]" for x in s.body)]
-    ok = len(tr) == 1 and src(tr[0].handlers[0].type) == "KeyError" and src(tr[0].handlers[0].body[-1]) == "return 0.0"
-    ctx.check(ok, rid, f, f.node, "einsum scalar", "einsum: full trace returns the scalar block, or 0.0 when no diagonal block exists")
-    pre = [n for n in walk_own(f.node) if isinstance(n, ast.If) and src(n.test) == "rhs or preserve_array"]
-    ctx.check(len(pre) == 1, rid, f, f.node, "einsum wrap", "einsum: results with indices (or preserve_array) are wrapped in an array")
-    ctx.minimum(rid, 10, "five sites")
-
-
-def check_tables(prog, ctx):
-    rid = "R02.5"
-    f = prog.func(f"{AC}:AbelianArray.__matmul__")
-    tabs = [n for n in ast.walk(f.node) if isinstance(n, ast.Subscript) and isinstance(n.value, ast.Dict)]
-    ctx.need(len(tabs) == 1, "__matmul__: literal table not found")
-    t = ast.literal_eval(tabs[0].value)
-    ctx.check(set(t) == set(itertools.product((1, 2), repeat=2)), rid, f, tabs[0], str(sorted(t)), "matmul table covers all (1|2, 1|2) rank pairs")
-    ctx.check(src(tabs[0].slice) in ("(self.ndim, other.ndim)", "self.ndim, other.ndim"), rid, f, tabs[0], src(tabs[0].slice), "the table is indexed by (left rank, right rank)")
-    for (na, nb), (left, axa, axb, right) in sorted(t.items()):
-        ok = sorted(left + axa) == list(range(na)) and sorted(axb + right) == list(range(nb)) and axa == (na - 1,) and axb == (0,)
-        ctx.check(ok, rid, f, tabs[0], f"({na},{nb}) -> {(left, axa, axb, right)}",
-                  f"row ({na},{nb}): free+contracted axes partition each operand; a's last axis meets b's first")
-    g = prog.func(f"{AC}:_tensordot_via_fused")
-    tabs = [n for n in ast.walk(g.node) if isinstance(n, ast.Subscript) and isinstance(n.value, ast.Dict)]
-    ctx.need(len(tabs) == 2, "_tensordot_via_fused: the two literal tables were not found")
-    for tb in tabs:
-        t = ast.literal_eval(tb.value)
-        key = src(tb.slice)
-        ctx.check(set(t) == set(itertools.product((False, True), repeat=2)), rid, g, tb, str(sorted(t)), "fused-shape table covers all four cases")
-        left_side = "left_axes" in key
-        ctx.check(key.replace("(", "").replace(")", "") in ("boolleft_axes, boolaxes_a", "boolaxes_b, boolright_axes"), rid, g, tb, key,
-                  "the table is indexed by (has first group, has second group) of that operand")
-        for (h1, h2), (g1, g2) in sorted(t.items()):
-            n_axes = int(h1) + int(h2)
-            want1 = (0,) if h1 else ()
-            want2 = ((1,) if h1 else (0,)) if h2 else ()
-            ctx.check(g1 == want1 and g2 == want2, rid, g, tb, f"{(h1, h2)} -> {(g1, g2)}",
-                      f"{'left' if left_side else 'right'} operand with groups present {(h1, h2)}: fused axes are numbered in group order")
-    ctx.minimum(rid, 14, "4 matmul rows + 8 fused rows + coverage")
+ASSUMPTIONS = ["backend tensordot/transpose/reshape/concatenate/zeros/trace/einsum behave as numpy's on each block",
+               "the evaluator implements the Python semantics of the sub-language the library uses (anything else fails closed)"]
 
 
 def run(prog, ctx):
-    ctx.rule("R02.1", "operand-role consistency of every container/index pairing; result = A-left + B-right")
-    ctx.rule("R02.2", "mode: None -> default, auto -> blockwise|fused, fused, blockwise, else raise")
-    ctx.rule("R02.3", "abelian and fermionic entry points normalise `axes` identically")
-    ctx.rule("R02.4", "scalar-result protocol agrees at all sites")
-    ctx.rule("R02.5", "literal axes tables partition the axes, contract last-with-first, cover all keys")
-    check_roles(prog, ctx)
-    check_modes(prog, ctx)
-    check_axes_normalisation(prog, ctx)
-    check_scalar_protocol(prog, ctx)
-    check_tables(prog, ctx)
+    from rules.sem_contract import check_contraction, check_entrypoints
+
+    ctx.rule("K1", "blockwise: result sectors, pair products, charge and indices are those of the definition of a block-sparse contraction")
+    ctx.rule("K2", "fused / auto: the same pair products per result sector as the definition, no product of misaligned fused layouts; same "
+                   "rank, indices, charge, sectors and block shapes as blockwise")
+    ctx.rule("K4", "integer and negative axes, matmul, trace, tracing / permuting einsum, scalar results (0.0 when nothing aligns), refusal "
+                   "of unknown modes and unequal axes agree with the definition")
+    n = check_contraction(prog, ctx, rules=("K1", "K2"), fermionic_too=False)
+    m = check_entrypoints(prog, ctx)
+    ctx.extra_coverage = {"contraction_cases_evaluated": n, "entry_point_cases_evaluated": m}
+    ctx.minimum("K1", 1, "blockwise")
+    ctx.minimum("K4", 1, "entry points")
